@@ -134,7 +134,7 @@ class FnSplicer:
     def splice(self):
         rf, it, spec = self.rf, self.it, self.spec
         known = {'result', 'requires', 'ensures', 'decreases', 'loops', 'proofs', 'closures', 'props', 'note',
-                 'unroll_fn_array', 'opens_invariants', 'no_unwind', 'external_body', 'returns', 'mode_attr', 'assumed', 'slice_matches', 'retain', 'take_while_count', 'proved_in', 'rev_find'}
+                 'unroll_fn_array', 'opens_invariants', 'no_unwind', 'external_body', 'returns', 'mode_attr', 'assumed', 'slice_matches', 'retain', 'take_while_count', 'proved_in', 'rev_find', 'filter_map_collect', 'map_sum'}
         bad = set(spec) - known
         if bad:
             raise ExtractError(f'unknown spec keys {bad}')
@@ -201,6 +201,10 @@ class FnSplicer:
             self._r7(dict(spec['take_while_count']))
         if spec.get('rev_find'):
             self._r11(spec['rev_find'])
+        if spec.get('filter_map_collect'):
+            self._r12(dict(spec['filter_map_collect']))
+        if spec.get('map_sum'):
+            self._r13(dict(spec['map_sum']))
         # --- proof / ghost insertions
         for p in spec.get('proofs', []):
             self._splice_proof(p, loops)
@@ -583,6 +587,88 @@ class FnSplicer:
             ci += 1
         if found != 1:
             raise ExtractError(f'{self._where()}: R11 needs exactly one `x.iter().enumerate().rev().find(|(i, c)| ..)` (found {found})')
+
+    def _r12(self, cfg):
+        """R12: `E.iter().enumerate().filter_map(|(I, C)| BODY).collect()` (E a plain identifier naming a slice; the target a Vec) =>
+        `{ let mut __out = Vec::new(); let mut __k: usize = 0; while __k < E.len() { let I = __k; let C = &E[__k]; __k += 1;
+           match (BODY) { Some(__v) => { __out.push(__v); } None => {} } } __out }`
+        -- the definition of enumerate + filter_map + collect::<Vec<_>>: BODY is evaluated once per element, in order, and
+        the values it returns in `Some` are appended in that order. BODY is left untouched."""
+        rf, it = self.rf, self.it
+        bad = set(cfg) - {'invariant', 'decreases'}
+        if bad:
+            raise ExtractError(f'unknown filter_map_collect spec keys {bad}')
+        ci = it.body[0] + 1; end = it.body[1]; found = 0
+        want = ['.', 'iter', '(', ')', '.', 'enumerate', '(', ')', '.', 'filter_map', '(', '|', '(']
+        while ci < end:
+            if rf.ct(ci).kind == 'ident' and rf.ct(ci - 1).text != '.' and [rf.ct(ci + k).text for k in range(1, len(want) + 1)] == want:
+                E = rf.ct(ci).text
+                op = ci + 11; cp = rf.match(op)
+                tp = ci + 13; tc = rf.match(tp)
+                inner = [rf.ct(k).text for k in range(tp + 1, tc)]
+                if len(inner) != 3 or inner[1] != ',' or rf.ct(tc + 1).text != '|':
+                    raise ExtractError(f'{self._where()}: R12 needs a closure `|(i, c)| ..`')
+                if [rf.ct(cp + k).text for k in range(1, 5)] != ['.', 'collect', '(', ')']:
+                    raise ExtractError(f'{self._where()}: R12 needs `.filter_map(..).collect()` (found `{rf.spaced(cp + 1, cp + 5)}`)')
+                I, C = inner[0], inner[2]
+                BODY = rf.spaced(tc + 2, cp).strip()
+                clauses = self._clauses({'invariant': [f'__k <= {E}@.len()'] + list(cfg.get('invariant', [])), 'decreases': f'{E}@.len() - __k'})
+                before = rf.spaced(ci, cp + 5)
+                after = (f'{{ let mut __out = Vec::new(); let mut __k: usize = 0; while __k < {E}.len()\n{clauses}{{ let {I} = __k; let {C} = &{E}[__k]; __k += 1; '
+                         f'match ({BODY}) {{ Some(__v) => {{ __out.push(__v); }} None => {{}} }} }} __out }}')
+                self.ed.replace(rf.ct(ci).start, rf.ct(cp + 4).end, after)
+                self.desugared.append({'rule': 'R12', 'before': ' '.join(before.split()), 'after': ' '.join(after.replace(clauses, '').split())})
+                found += 1
+                ci = cp + 5
+                continue
+            ci += 1
+        if found != 1:
+            raise ExtractError(f'{self._where()}: R12 needs exactly one `x.iter().enumerate().filter_map(|(i, c)| ..).collect()` (found {found})')
+
+    def _r13(self, cfg):
+        """R13: `let NAME: TY = EXPR.iter().map(|C| F).sum();` =>
+        `let NAME: TY = { let __sl = &EXPR; let mut __acc: TY = 0; let mut __j: usize = 0; while __j < __sl.len() { let C = &__sl[__j];
+           __acc += F; __j += 1; } __acc };`
+        -- the definition of map + sum over slice::Iter for an integer type (`+` with the overflow check of a debug build,
+        which is what Iterator::sum does there). F is left untouched."""
+        rf, it = self.rf, self.it
+        bad = set(cfg) - {'invariant', 'decreases'}
+        if bad:
+            raise ExtractError(f'unknown map_sum spec keys {bad}')
+        ci = it.body[0] + 1; end = it.body[1]; found = 0
+        while ci < end:
+            if rf.ct(ci).text == 'let' and rf.ct(ci - 1).text in (';', '{', '}') and rf.ct(ci + 1).kind == 'ident' and rf.ct(ci + 2).text == ':':
+                # statement end
+                k = ci
+                while k < end and rf.ct(k).text != ';':
+                    k = rf.match(k) + 1 if rf.ct(k).text in ('(', '[', '{') else k + 1
+                if k < end and [rf.ct(k - j).text for j in range(4, 0, -1)] == ['.', 'sum', '(', ')']:
+                    eq = ci + 3
+                    while eq < k and rf.ct(eq).text != '=':
+                        eq += 1
+                    TY = rf.spaced(ci + 3, eq).strip()
+                    mcp = k - 5                      # ')' closing map(..)
+                    if rf.ct(mcp).text != ')':
+                        raise ExtractError(f'{self._where()}: R13: expected `.map(..).sum()`')
+                    mop = rf.match(mcp)
+                    if [rf.ct(mop - j).text for j in range(6, 0, -1)] != ['.', 'iter', '(', ')', '.', 'map'] or rf.ct(mop + 1).text != '|' \
+                            or rf.ct(mop + 2).kind != 'ident' or rf.ct(mop + 3).text != '|':
+                        raise ExtractError(f'{self._where()}: R13 needs `EXPR.iter().map(|c| ..).sum()`')
+                    C = rf.ct(mop + 2).text
+                    F = rf.spaced(mop + 4, mcp).strip()
+                    EXPR = rf.spaced(eq + 1, mop - 6).strip()
+                    clauses = self._clauses({'invariant': ['__j <= __sl@.len()'] + list(cfg.get('invariant', [])), 'decreases': '__sl@.len() - __j'})
+                    before = rf.spaced(eq + 1, k)
+                    after = (f'{{ let __sl = &{EXPR}; let mut __acc: {TY} = 0; let mut __j: usize = 0; while __j < __sl.len()\n{clauses}'
+                             f'{{ let {C} = &__sl[__j]; __acc += {F}; __j += 1; }} __acc }}')
+                    self.ed.replace(rf.ct(eq + 1).start, rf.ct(k - 1).end, after)
+                    self.desugared.append({'rule': 'R13', 'before': ' '.join(before.split()), 'after': ' '.join(after.replace(clauses, '').split())})
+                    found += 1
+                ci = k
+                continue
+            ci += 1
+        if found != 1:
+            raise ExtractError(f'{self._where()}: R13 needs exactly one `let x: T = e.iter().map(|c| ..).sum();` (found {found})')
 
     def _splice_proof(self, p, loops):
         rf, it = self.rf, self.it
